@@ -40,7 +40,7 @@ func TestVerifAuthorizeInterceptors(t *testing.T) {
 	vrt.RunOnce(vrt.Options{Name: "interceptors", Horizon: 1 << 30}, func(r *vrt.Run) {
 		for _, strict := range []bool{true, false} {
 			for _, stored := range []string{"", "t1"} {
-				for _, md := range []string{"none", "apponly", "tokenonly", "t1", "t2", "otherapp"} {
+				for _, md := range []string{"none", "apponly", "tokenonly", "t1", "t2", "t", "t1x", "otherapp"} {
 					for _, kind := range []string{"unary", "stream"} {
 						s.FlushAll()
 						if stored != "" {
@@ -56,7 +56,7 @@ func TestVerifAuthorizeInterceptors(t *testing.T) {
 							ctx = metadata.NewIncomingContext(ctx, metadata.Pairs("app", "app1"))
 						case "tokenonly":
 							ctx = metadata.NewIncomingContext(ctx, metadata.Pairs("token", "t1"))
-						case "t1", "t2":
+						case "t1", "t2", "t", "t1x":
 							ctx = metadata.NewIncomingContext(ctx, metadata.Pairs("app", "app1", "token", md))
 						case "otherapp":
 							ctx = metadata.NewIncomingContext(ctx, metadata.Pairs("app", "app2", "token", "t1"))
@@ -78,7 +78,7 @@ func TestVerifAuthorizeInterceptors(t *testing.T) {
 						switch md {
 						case "none", "apponly", "tokenonly":
 							want = codes.Unauthenticated
-						case "t1", "t2":
+						case "t1", "t2", "t", "t1x":
 							if stored == "" {
 								if strict {
 									want = codes.Internal
